@@ -936,7 +936,8 @@ def judge_o_horo_comp(inp, obs, lr):
 # Every answer must depend only on the object's CURRENT data: after each step the queries are compared with those of a
 # fresh object built from a copy of the current data.
 H_KINDS = ["segment", "geodesic", "hyperplane", "subspace", "horosphere"]
-H_OPS = ["query", "query", "transform", "transform_apply", "setitem", "set", "flatten", "getitem"]
+H_OPS = ["query", "query", "transform", "transform_apply", "setitem", "set", "flatten", "getitem", "copy", "copy", "setitem_copy"]
+COPY_WAYS = ["ctor", "flatten", "index", "reshape", "deepcopy"]
 
 
 def _h_unit(rng, kind, dim):
@@ -984,7 +985,18 @@ def gen_o_hist(rng, n):
                 st["i"] = rng.randrange(max(cnt, 1))
             elif op == "getitem":
                 st["i"] = rng.randrange(max(cnt, 1))
+            elif op == "copy":
+                st["way"] = rng.choice(COPY_WAYS)
+            elif op == "setitem_copy":
+                st["unit"] = _h_unit(rng, kind, dim)
+                st["i"] = rng.randrange(max(cnt, 1))
+                st["which"] = rng.randrange(4)
             steps.append(st)
+        if cnt and rng.random() < 0.6:
+            # (iii) a copy (constructor / flatten / index / reshape / deepcopy), then item assignment on the source and on the
+            # copy, each followed by queries on both
+            steps += [{"op": "copy", "way": rng.choice(COPY_WAYS)}, {"op": "setitem", "unit": _h_unit(rng, kind, dim), "i": rng.randrange(cnt)},
+                      {"op": "query"}, {"op": "setitem_copy", "unit": _h_unit(rng, kind, dim), "i": rng.randrange(cnt), "which": 0}]
         steps.append({"op": "query"})
         # G3: calls on an unrelated object of the same class between the steps; extreme homogeneous scale of every unit; float32 data
         for st in steps:
@@ -1032,7 +1044,7 @@ def _spoil(*arrs):
             a[...] = np.nan
 
 
-def _h_query(kind, obj, dim, degrees, spoil=False):
+def _h_query(kind, obj, dim, degrees, spoil=False, basis=True):
     out = []
     for model in ("poincare", "halfspace"):
         c, r = obj.sphere_parameters(model)
@@ -1046,7 +1058,7 @@ def _h_query(kind, obj, dim, degrees, spoil=False):
             out += [np.array(c2, dtype=float), np.array(r2, dtype=float), np.cos(tr), np.sin(tr)]
             if spoil:
                 _spoil(c2, r2, th)
-        if kind != "horosphere":
+        if kind != "horosphere" and basis:
             ib = obj.ideal_basis_coords(model)
             out.append(_rows_sorted(ib))
             if spoil:
@@ -1092,11 +1104,43 @@ def run_o_hist(inp):
     else:
         obj = _h_build(kind, data) if not f32 else {"segment": H.Segment, "geodesic": H.Geodesic, "subspace": H.Subspace, "horosphere": H.Horosphere}[kind](data.copy())
     log = []
+    copies = []          # (object, copy of the data it must still have): copies must be independent of their source
+    cls = {"segment": H.Segment, "geodesic": H.Geodesic, "hyperplane": H.Hyperplane, "subspace": H.Subspace, "horosphere": H.Horosphere}[kind]
     for k, st in enumerate(inp["steps"]):
         op = st["op"]
         oth = st.get("other")
         if oth is not None and oth["first"]:
             _h_other(kind, dim, oth, inp["degrees"], log, k)
+        if op == "copy":
+            import copy as _copy
+            way = st["way"]
+            if way == "ctor":
+                c = cls(obj)
+            elif way == "flatten":
+                c = obj.flatten_to_unit()
+            elif way == "index":
+                c = obj[...]
+            elif way == "reshape" and len(obj.shape) >= 1:
+                c = obj.flatten_to_unit()
+                c = cls(np.array(c.proj_data).reshape((1,) + np.array(c.proj_data).shape))
+            else:
+                c = _copy.deepcopy(obj)
+            copies.append([c, np.array(c.proj_data).copy(), way])
+        elif op == "setitem_copy" and copies:
+            c = copies[st["which"] % len(copies)]
+            if len(c[0].shape) >= 1:
+                new = H.Hyperplane(np.array(st["unit"])) if kind == "hyperplane" else _h_build(kind, st["unit"])
+                c[0][(0,) * (len(c[0].shape) - 1) + (st["i"] % c[0].shape[-1],)] = new
+                c[1] = np.array(c[0].proj_data).copy()
+        if op == "query" and copies:
+            # every copy still has the data it had (or was given), and answers like a fresh object with that data
+            for c, data0, way in copies:
+                same = bool(np.array_equal(np.array(c.proj_data), data0))
+                g1 = _h_query(kind, c, dim, inp["degrees"])
+                w1 = _h_query(kind, cls(data0.copy()), dim, inp["degrees"])
+                if not (same and _h_same(g1, w1, tol)):
+                    log.append({"k": k, "op": "copy:" + way, "same_as_fresh": bool(_h_same(g1, w1, tol)), "data_unchanged": same,
+                                "stable_after_output_mutation": True, "on_sphere": 0.0})
         if op == "query":
             got = _h_query(kind, obj, dim, inp["degrees"], spoil=True)        # G2: the returned arrays are overwritten ...
             again = _h_query(kind, obj, dim, inp["degrees"])                   # ... which must not change the next answer
@@ -1152,11 +1196,104 @@ def judge_o_hist(inp, obs, lr):
     if "exc" in obs:
         return {"expected": "history runs", "observed": obs, "tags": dict(tags, exc=obs["exc"], ops=ops[:7])}
     for e in obs["log"]:
-        if not (e["same_as_fresh"] and e.get("stable_after_output_mutation", True) and e["on_sphere"] <= 1e-5):
+        if not (e["same_as_fresh"] and e.get("data_unchanged", True) and e.get("stable_after_output_mutation", True) and e["on_sphere"] <= 1e-5):
             before = ops[:e["k"]]
             return {"expected": "queries depend only on the current data (same as a fresh object), defining points on the reported sphere", "observed": e,
                     "tags": dict(tags, after=[o for o in before if o != "query"][-2:], queried_before=before.count("query") > 0,
                                  extreme_scale=bool(inp.get("scales")) and max(abs(math.log10(abs(x))) for x in inp["scales"]) > 3, f32=bool(inp.get("f32")))}
+    return None
+
+
+# ---- integer / list-of-int / float32 packagings of every object's data (G4) -------------------------------------------
+def _int_unit(rng, kind, dim):
+    if kind in ("segment", "polygon"):
+        while True:
+            rows = [G.int_timelike(rng, dim) for _ in range(2 if kind == "segment" else 3)]
+            ks = [np.array(r[1:]) / r[0] for r in rows]
+            if all(np.linalg.norm(ks[i] - ks[j]) > 0.15 for i in range(len(ks)) for j in range(i)) and \
+                    (kind == "segment" or abs((ks[1] - ks[0])[0] * (ks[2] - ks[0])[1] - (ks[1] - ks[0])[1] * (ks[2] - ks[0])[0]) > 0.05):
+                return rows
+    if kind == "geodesic":
+        while True:
+            a, b = G.int_lightlike(rng, dim), G.int_lightlike(rng, dim)
+            ka, kb = np.array(a[1:]) / a[0], np.array(b[1:]) / b[0]
+            if np.linalg.norm(ka - kb) > 0.4 and np.linalg.norm(ka + kb) > 0.4 and ka[0] < 0.85 and kb[0] < 0.85:
+                return [a, b]
+    if kind == "hyperplane":
+        while True:
+            d = G.int_spacelike(rng, dim)
+            if d[0] != 0 and any(d[1:]):
+                return d
+    if kind == "horosphere":
+        while True:
+            c = G.int_lightlike(rng, dim)
+            if c[1] / c[0] < 0.85:
+                return [c, G.int_timelike(rng, dim)]
+
+
+def gen_o_intdata(rng, n):
+    for _ in range(n):
+        kind = rng.choice(["segment", "segment", "geodesic", "hyperplane", "horosphere", "polygon"])
+        dim = 2 if kind == "polygon" else rng.choice([2, 2, 3])
+        cnt = rng.choice([0, 0, 2, 3])
+        yield {"kind": kind, "dim": dim, "cnt": cnt, "units": [_int_unit(rng, kind, dim) for _ in range(max(cnt, 1))],
+               "pack": rng.choice(["int64", "int64", "int32", "list", "float32"]), "via_points": rng.random() < 0.3, "degrees": rng.random() < 0.5}
+
+
+def run_o_intdata(inp):
+    kind, dim, cnt = inp["kind"], inp["dim"], inp["cnt"]
+    data = np.array(inp["units"] if cnt else inp["units"][0], dtype=float)
+    arg = G.pack_data(data, inp["pack"])
+
+    def build(x, packed):
+        if kind == "polygon":
+            return H.Polygon(x)
+        if kind == "hyperplane":
+            return H.Hyperplane(x, normals_only=True)
+        if kind == "segment" and packed and inp["via_points"]:
+            xa = np.array(x)
+            return H.Segment(H.Point(xa[..., 0, :]), H.Point(xa[..., 1, :]))
+        return {"segment": H.Segment, "geodesic": H.Geodesic, "horosphere": H.Horosphere}[kind](x)
+    # the float64 object is the reference; degenerate positions that integral coordinates hit exactly (a geodesic through
+    # the origin of the Poincare ball, an ideal endpoint at the half-space point at infinity) are not the subject here
+    try:
+        ref = build(data.copy(), False)
+        if kind == "polygon":
+            chk = [np.array(a, dtype=float) for m in ("poincare", "halfspace") for a in ref.circle_parameters(degrees=False, model=m)[:2]]
+        else:
+            chk = _h_query(kind, ref, dim, False)
+        if not all(np.all(np.isfinite(a)) and (a.size == 0 or np.max(np.abs(a)) < 50) for a in chk):
+            return {"skip": True}
+    except np.linalg.LinAlgError:
+        return {"skip": True}
+    obj = build(arg, True)
+    if kind == "polygon":
+        q = lambda o: [np.array(a, dtype=float) for m in ("poincare", "halfspace") for a in o.circle_parameters(degrees=inp["degrees"], model=m)[:2]] + \
+            [_rows_sorted(np.array(o.get_edges().ideal_endpoint_coords("klein")))]
+        got, want = q(obj), q(ref)
+        ib = np.array(obj.get_edges().ideal_basis, dtype=float)
+        null = float(np.max(np.abs(G.mink(ib, ib)) / np.sum(ib * ib, axis=-1)))
+    else:
+        # the ideal basis of a hyperplane built from its normal depends on an arbitrary choice of frame: only the sphere is compared
+        nb = kind != "hyperplane"
+        got, want = _h_query(kind, obj, dim, inp["degrees"], basis=nb), _h_query(kind, ref, dim, inp["degrees"], basis=nb)
+        null = 0.0
+        if kind == "segment":
+            ib = np.array(obj.ideal_basis, dtype=float)
+            null = float(np.max(np.abs(G.mink(ib, ib)) / np.sum(ib * ib, axis=-1)))
+    tol = 5e-2 if inp["pack"] == "float32" else 1e-9
+    return {"same_as_float64": bool(_h_same(got, want, tol)), "null": null, "dtype": str(np.array(obj.proj_data).dtype)}
+
+
+def judge_o_intdata(inp, obs, lr):
+    tags = {"kind": inp["kind"], "dim": inp["dim"], "pack": inp["pack"], "composite": bool(inp["cnt"]), "via_points": inp["via_points"]}
+    if "exc" in obs:
+        return {"expected": "object built from integral data", "observed": obs, "tags": dict(tags, exc=obs["exc"])}
+    if obs.get("skip"):
+        return None
+    if not (obs["same_as_float64"] and obs["null"] <= (1e-5 if inp["pack"] == "float32" else 1e-9)):
+        return {"expected": "same circle / sphere parameters and ideal endpoints as the same values stored as float64; ideal endpoints lightlike",
+                "observed": obs, "tags": tags}
     return None
 
 
@@ -1182,6 +1319,10 @@ CLAUSES = [
            budget={"quick": 150, "thorough": 5000},
            what="histories on Segment / Geodesic / Hyperplane / Subspace / Horosphere (single and composite): query, then iso @ obj, iso.apply, obj[i] = ..., "
                 "set(...), flatten_to_unit, slicing, then query again; every query equals that of a fresh object with the same data and is right in itself"),
+    Clause("integer_data_oracle", "oracle", gen_o_intdata, run_o_intdata, judge_o_intdata, site="hyperbolic.Segment._compute_aux_data",
+           budget={"quick": 120, "thorough": 3000},
+           what="Segment / Geodesic / Hyperplane / Horosphere / Polygon built from integral data as int64, int32, nested lists of ints, float32, integer Points "
+                "(single and composite): same parameters as the float64 object, ideal endpoints lightlike"),
     Clause("polygon_oracle", "oracle", gen_o_polygon, run_o_polygon, judge_o_polygon, site="hyperbolic.Polygon.circle_parameters",
            budget={"quick": 80, "thorough": 2500},
            what="Polygon.circle_parameters (single and composite polygons, 3-7 vertices, both models, degrees/radians, flatten on/off): same as the edge "
